@@ -353,6 +353,45 @@ func main() {
 		}
 		c.NonTrivial()
 	})
+	// padding a bound: every side moves out by at least the given number of metres, measured along the bound's own edges
+	// (a bound that reaches across the equator has its narrowest parallel at the edge that is farther from the equator,
+	// whichever hemisphere that is)
+	padLats := []float64{-80, -58, -34, -5, 0, 5, 34, 58, 80}
+	r.Explore("bound-pad", fmt.Sprintf("every bound with bottom < top over the latitudes %v x 3 longitude spans x pads {1 km, 100 km}: BoundPad moves top and bottom by the pad (111131.75 m per degree) and the west / east sides by at least the pad along both edge parallels (equirectangular and haversine), unless the world's edge stops it", padLats), mc.Opts{MaxDev: -1}, func(c *mc.Ctx) {
+		lo, hi := padLats[c.Choose(len(padLats))], padLats[c.Choose(len(padLats))]
+		if lo >= hi {
+			c.Skip()
+			return
+		}
+		span := [][2]float64{{-20, 15}, {100, 100.5}, {-170, -169}}[c.Choose(3)]
+		d := []float64{1000, 1e5}[c.Choose(2)]
+		b := orb.Bound{Min: orb.Point{span[0], lo}, Max: orb.Point{span[1], hi}}
+		pad := geo.BoundPad(b, d)
+		if dy := (pad.Max[1] - b.Max[1]) * 111131.75; pad.Max[1] < 90 && math.Abs(dy-d) > 1e-6*d {
+			c.Failf("bound-pad", "BoundPad(%v, %v) = %v moves the top edge by %v m", b, d, pad, dy)
+		}
+		if dy := (b.Min[1] - pad.Min[1]) * 111131.75; pad.Min[1] > -90 && math.Abs(dy-d) > 1e-6*d {
+			c.Failf("bound-pad", "BoundPad(%v, %v) = %v moves the bottom edge by %v m", b, d, pad, dy)
+		}
+		for _, lat := range []float64{lo, hi} {
+			for side := 0; side < 2; side++ {
+				from, to := orb.Point{b.Min[0], lat}, orb.Point{pad.Min[0], lat}
+				if side == 1 {
+					from, to = orb.Point{b.Max[0], lat}, orb.Point{pad.Max[0], lat}
+				}
+				if to[0] <= -180 || to[0] >= 180 {
+					continue
+				}
+				if moved := geo.Distance(from, to); moved < d*(1-0.003) {
+					c.Failf("bound-pad", "BoundPad(%v, %v) = %v moves side %d only %v m out along the parallel %v", b, d, pad, side, moved, lat)
+				}
+				if moved := gc(from, to); moved < d*(1-0.006) {
+					c.Failf("bound-pad", "BoundPad(%v, %v) = %v moves side %d only %v m (great circle) out along the parallel %v", b, d, pad, side, moved, lat)
+				}
+			}
+		}
+		c.NonTrivial()
+	})
 	// short segments (tens of metres and less, where a flat-earth shortcut is tempting), also across the antimeridian,
 	// where the two ends of a segment have longitudes of opposite sign
 	r.Explore("short-segments", "lines of 12 vertices 0.4 m .. 400 m apart x 4 directions x 3 anchors (mid-latitude, high latitude, astride the antimeridian) x 11 fractions of the length: PointAtDistanceAlongLine lies on the right segment at the right path length (own great-circle formula), bearing = Bearing of that segment", mc.Opts{MaxDev: -1}, func(c *mc.Ctx) {
